@@ -95,6 +95,25 @@ Proof.
   eapply utf8_se_safe; eassumption.
 Qed.
 
+(* ... and it is the utf-8 encoding of exactly the name and the argument *)
+Lemma to_bytes_wire name arg bs :
+  In name command_names -> to_bytes name arg = CmdOk bs ->
+  wire_of (name, arg) bs /\ existsb bad_char arg = false.
+Proof.
+  intros Hn. unfold to_bytes.
+  destruct (existsb bad_char (name ++ 32 :: arg)) eqn:Eb; [discriminate|].
+  apply existsb_app_false in Eb. destruct Eb as [_ Eb]. cbn [existsb] in Eb.
+  apply orb_false_iff in Eb. destruct Eb as [_ Earg].
+  rewrite <- app_assoc, utf8_se_app.
+  rewrite (utf8_se_ascii name) by now apply command_name_ascii.
+  cbn [app]. change (32 :: arg ++ [13; 10]) with ([32] ++ arg ++ [13; 10]).
+  rewrite utf8_se_app. change (utf8_se [32]) with (Some [32]).
+  rewrite utf8_se_app. change (utf8_se [13; 10]) with (Some [13; 10]).
+  destruct (utf8_se arg) as [a|] eqn:Ea; [|discriminate].
+  intros H. injection H as <-.
+  split; [|assumption]. exists a. cbn [fst snd]. split; [assumption|reflexivity].
+Qed.
+
 Lemma to_bytes_rejects name arg :
   existsb bad_char arg = true -> to_bytes name arg = CmdProtocolErr.
 Proof.
@@ -476,3 +495,417 @@ Proof.
   apply Hgoal.
 Qed.
 
+(* ================================================================== *)
+(* arrivals never change what a connection carries                     *)
+(* ================================================================== *)
+Lemma stream_push k c : stream (push k c) = stream c.
+Proof.
+  unfold stream, push; cbn [c_buf c_pending]. rewrite <- app_assoc. now rewrite firstn_skipn.
+Qed.
+
+Lemma arrive_tr s : s_tr (arrive s) = s_tr s.
+Proof. unfold arrive. destruct (s_net s) as [|[a b] r]; reflexivity. Qed.
+
+Lemma arrive_ctrl s : stream (s_ctrl (arrive s)) = stream (s_ctrl s).
+Proof. unfold arrive. destruct (s_net s) as [|[a b] r]; [reflexivity|apply stream_push]. Qed.
+
+Lemma arrive_data s : stream (s_data (arrive s)) = stream (s_data s).
+Proof. unfold arrive. destruct (s_net s) as [|[a b] r]; [reflexivity|apply stream_push]. Qed.
+
+(* ================================================================== *)
+(* the session: every write is one command line                        *)
+(* ================================================================== *)
+Definition ok_event (ev : event) : Prop :=
+  match ev with EvWrite b => one_line b | _ => True end.
+
+(* events of the control phase (everything before the data is read) *)
+Definition ctl_event (ev : event) : Prop :=
+  match ev with EvData _ | EvDataEof | EvDataClose => False | _ => True end.
+
+(* [m] does not consume the data stream and only appends events satisfying P *)
+Definition pres (P : event -> Prop) {A} (m : M A) : Prop :=
+  forall s s' r, m s = (s', r) ->
+    stream (s_data s') = stream (s_data s) /\ exists t, s_tr s' = s_tr s ++ t /\ Forall P t.
+
+Section Pres.
+  Variable P : event -> Prop.
+  Hypothesis HPw : forall b, one_line b -> P (EvWrite b).
+  Hypothesis HPr : forall code, P (EvReply code).
+  Hypothesis HPo : forall a p, P (EvDataOpen a p).
+
+  Lemma pres_ret {A} (a : A) : pres P (ret a).
+  Proof.
+    intros s s' r H. unfold ret in H. injection H as <- <-. split; [reflexivity|].
+    exists []. rewrite app_nil_r. split; constructor.
+  Qed.
+
+  Lemma pres_raise {A} e : pres P (@raise A e).
+  Proof.
+    intros s s' r H. unfold raise in H. injection H as <- <-. split; [reflexivity|].
+    exists []. rewrite app_nil_r. split; constructor.
+  Qed.
+
+  Lemma pres_arrive : pres P arrive_m.
+  Proof.
+    intros s s' r H. unfold arrive_m in H. injection H as <- <-. split; [apply arrive_data|].
+    exists []. rewrite app_nil_r, arrive_tr. split; constructor.
+  Qed.
+
+  Lemma pres_bind {A B} (m : M A) (f : A -> M B) :
+    pres P m -> (forall a, pres P (f a)) -> pres P (bind m f).
+  Proof.
+    intros Hm Hf s s' r H. unfold bind in H.
+    destruct (m s) as [s1 [a|e]] eqn:Em.
+    - destruct (Hm _ _ _ Em) as (Hd1 & t1 & Ht1 & Ho1).
+      destruct (Hf a _ _ _ H) as (Hd2 & t2 & Ht2 & Ho2).
+      split; [congruence|]. exists (t1 ++ t2). rewrite Ht2, Ht1, app_assoc.
+      split; [reflexivity|]. apply Forall_app; split; assumption.
+    - injection H as <- <-. exact (Hm _ _ _ Em).
+  Qed.
+
+  Lemma pres_catch {A} (m : M A) (h : N -> M A) :
+    pres P m -> (forall code, pres P (h code)) -> pres P (catch_server m h).
+  Proof.
+    intros Hm Hh s s' r H. unfold catch_server in H.
+    destruct (m s) as [s1 [a|e]] eqn:Em.
+    - injection H as <- <-. exact (Hm _ _ _ Em).
+    - destruct e; try (injection H as <- <-; exact (Hm _ _ _ Em)).
+      destruct (Hm _ _ _ Em) as (Hd1 & t1 & Ht1 & Ho1).
+      destruct (Hh code _ _ _ H) as (Hd2 & t2 & Ht2 & Ho2).
+      split; [congruence|]. exists (t1 ++ t2). rewrite Ht2, Ht1, app_assoc.
+      split; [reflexivity|]. apply Forall_app; split; assumption.
+  Qed.
+
+  Lemma pres_emit ev : P ev -> pres P (emit ev).
+  Proof.
+    intros Ho s s' r H. unfold emit in H. injection H as <- <-. cbn [s_data s_tr].
+    split; [reflexivity|]. exists [ev]. split; [reflexivity|]. constructor; auto.
+  Qed.
+
+  Lemma pres_if {A} (b : bool) (m1 m2 : M A) : pres P m1 -> pres P m2 -> pres P (if b then m1 else m2).
+  Proof. destruct b; auto. Qed.
+
+  Lemma pres_write name arg : In name command_names -> pres P (write_command name arg).
+  Proof.
+    intros Hn s s' r H. unfold write_command in H.
+    destruct (to_bytes name arg) as [b| |] eqn:Eb.
+    - injection H as <- <-. rewrite arrive_data, arrive_tr. cbn [s_data s_tr]. split; [reflexivity|].
+      exists [EvWrite b]. split; [reflexivity|]. constructor; [|constructor].
+      apply HPw. eapply to_bytes_one_line; eassumption.
+    - injection H as <- <-. split; [reflexivity|]. exists []. rewrite app_nil_r. split; constructor.
+    - injection H as <- <-. split; [reflexivity|]. exists []. rewrite app_nil_r. split; constructor.
+  Qed.
+
+  Lemma pres_read limit : pres P (read_reply_m limit).
+  Proof.
+    intros s s' r H. unfold read_reply_m in H.
+    destruct (read_reply_run limit (s_ctrl (arrive s))) as [code text c'|e].
+    - injection H as <- <-. cbn [s_data s_tr]. rewrite arrive_data, arrive_tr. split; [reflexivity|].
+      exists [EvReply code]. split; [reflexivity|]. constructor; [apply HPr|constructor].
+    - injection H as <- <-. rewrite arrive_data, arrive_tr. split; [reflexivity|].
+      exists []. rewrite app_nil_r. split; constructor.
+  Qed.
+
+  Lemma pres_expect codes r : pres P (expect_code codes r).
+  Proof. unfold expect_code. apply pres_if; [apply pres_ret|apply pres_raise]. Qed.
+
+  Ltac name_in := unfold command_names; cbn [In]; tauto.
+
+  Ltac pres_step limit :=
+    first
+      [ apply pres_ret | apply pres_raise | apply pres_expect | apply (pres_read limit) | apply pres_arrive
+      | apply pres_write; name_in
+      | apply pres_bind; [|intros ?]
+      | apply pres_catch; [|intros ?]
+      | apply pres_if
+      | apply pres_emit; apply HPo ].
+
+  Lemma pres_login limit u p : pres P (login limit u p).
+  Proof. unfold login. repeat pres_step limit. Qed.
+
+  Lemma pres_prepare limit q fresh cached : pres P (prepare_fetch limit q fresh cached).
+  Proof.
+    unfold prepare_fetch, read_welcome, log_in.
+    repeat pres_step limit; apply pres_login.
+  Qed.
+
+  Lemma pres_size limit path : pres P (fetch_size limit path).
+  Proof. unfold fetch_size. repeat pres_step limit. Qed.
+
+  Lemma pres_open_data limit : pres P (open_data_stream limit).
+  Proof.
+    unfold open_data_stream. repeat pres_step limit.
+    match goal with
+    | |- pres P (match parse_address ?x with _ => _ end) => destruct (parse_address x) as [[addr port]|]
+    end; repeat pres_step limit.
+  Qed.
+
+  Lemma pres_begin limit name arg : In name command_names -> pres P (begin_stream limit name arg).
+  Proof. intros Hn. unfold begin_stream. repeat first [apply pres_write; exact Hn | pres_step limit]. Qed.
+
+  Lemma pres_restart limit q : (forall n, P (EvRestart n)) -> pres P (try_restart limit q).
+  Proof.
+    intros Hs. unfold try_restart. destruct (restart_offset q) as [n|];
+      repeat first [apply pres_emit; apply Hs | pres_step limit].
+  Qed.
+
+  Lemma pres_start limit q fresh cached : (forall n, P (EvRestart n)) -> pres P (start limit q fresh cached).
+  Proof.
+    intros Hs. unfold start.
+    repeat first [apply pres_prepare | apply pres_size | apply pres_restart; exact Hs | apply pres_open_data
+                 | apply pres_begin; name_in | pres_step limit].
+  Qed.
+
+  Lemma pres_start_listing limit q fresh cached : pres P (start_listing limit q fresh cached).
+  Proof.
+    unfold start_listing.
+    repeat first [apply pres_prepare | apply pres_open_data | apply pres_begin; name_in | pres_step limit].
+  Qed.
+
+  Lemma pres_control limit q fresh cached :
+    (forall n, P (EvRestart n)) ->
+    pres P (if q_listing q then start_listing limit q fresh cached else start limit q fresh cached).
+  Proof. intros Hs. apply pres_if; [apply pres_start_listing|now apply pres_start]. Qed.
+
+  (* the part of read_stream after the data has been read *)
+  Lemma pres_tail limit :
+    P EvDataClose ->
+    pres P (r <- read_reply_m limit;; expect_code [226] r;;; emit EvDataClose;;; ret r).
+  Proof.
+    intros Hc. repeat first [apply pres_emit; exact Hc | pres_step limit].
+  Qed.
+End Pres.
+
+Definition ctl_ok (ev : event) : Prop := ok_event ev /\ ctl_event ev.
+
+Lemma ctl_ok_w b : one_line b -> ctl_ok (EvWrite b).   Proof. intros H; split; [exact H|exact I]. Qed.
+Lemma ctl_ok_r code : ctl_ok (EvReply code).            Proof. split; exact I. Qed.
+Lemma ctl_ok_o a p : ctl_ok (EvDataOpen a p).           Proof. split; exact I. Qed.
+Lemma ctl_ok_s n : ctl_ok (EvRestart n).                Proof. split; exact I. Qed.
+Lemma ok_w b : one_line b -> ok_event (EvWrite b).      Proof. intros H; exact H. Qed.
+Lemma ok_r code : ok_event (EvReply code).              Proof. exact I. Qed.
+Lemma ok_o a p : ok_event (EvDataOpen a p).             Proof. exact I. Qed.
+Lemma ok_s n : ok_event (EvRestart n).                  Proof. exact I. Qed.
+
+(* ================================================================== *)
+(* the data connection is read to EOF, then the 226 is required        *)
+(* ================================================================== *)
+Lemma conn_read_facts n c d c1 :
+  (n > 0)%nat -> conn_read n c = (d, c1) ->
+  stream c = d ++ stream c1 /\ (d = [] -> stream c1 = []).
+Proof.
+  intros Hn H. unfold conn_read in H.
+  set (c0 := match c_buf c with [] => deliver c | _ :: _ => c end) in *.
+  assert (Hs : stream c0 = stream c).
+  { unfold c0. destruct (c_buf c); [apply stream_deliver|reflexivity]. }
+  injection H as <- <-. unfold stream at 2 3; cbn [c_buf c_pending].
+  split.
+  - rewrite <- Hs. unfold stream. now rewrite app_assoc, firstn_skipn.
+  - intros Hd.
+    assert (Hb : c_buf c0 = []).
+    { revert Hd. destruct (c_buf c0) as [|y0 b0]; [reflexivity|]. destruct n; [lia|]. cbn [firstn]. congruence. }
+    rewrite Hb, skipn_nil. cbn [app].
+    unfold c0 in Hb |- *. destruct (c_buf c) as [|x b] eqn:Eb; [|congruence].
+    unfold deliver in Hb |- *; cbn [c_buf c_pending] in Hb |- *. rewrite Eb in Hb. cbn [app] in Hb.
+    pose proof (seg_len_pos c) as Hp.
+    destruct (c_pending c) as [|y ps]; [now rewrite skipn_nil|].
+    destruct (seg_len c); [lia|]. cbn [firstn] in Hb. congruence.
+Qed.
+
+(* DataStream.read_file under every arrival schedule and segmentation: the
+   chunks are all bytes of the data stream, in order, then EOF; the control
+   stream is not consumed *)
+Lemma read_file_all fuel : forall s s1,
+  read_file fuel s = Some s1 ->
+  exists chunks,
+    s_tr s1 = s_tr s ++ map EvData chunks ++ [EvDataEof]
+    /\ concat chunks = stream (s_data s)
+    /\ stream (s_data s1) = []
+    /\ stream (s_ctrl s1) = stream (s_ctrl s).
+Proof.
+  induction fuel as [|f IH]; intros s s1 H; [discriminate|].
+  cbn [read_file] in H.
+  destruct (conn_read 4096 (s_data (arrive s))) as [d c1] eqn:Er.
+  assert (H4096 : (4096 > 0)%nat) by lia.
+  destruct (conn_read_facts _ _ _ _ H4096 Er) as [Hs He]. rewrite arrive_data in Hs.
+  destruct d as [|x d].
+  - injection H as <-. cbn [s_tr s_data s_ctrl]. exists []. rewrite arrive_tr, arrive_ctrl.
+    cbn [map app concat]. repeat split; try reflexivity.
+    + rewrite Hs. cbn [app]. symmetry. now apply He.
+    + now apply He.
+  - apply IH in H. destruct H as (chunks & Ht & Hc & Hd & Hctl).
+    cbn [s_tr s_data s_ctrl] in *. rewrite arrive_tr in Ht. rewrite arrive_ctrl in Hctl.
+    exists ((x :: d) :: chunks). cbn [map concat]. rewrite Ht, Hs, Hc, <- app_assoc.
+    repeat split; try assumption; reflexivity.
+Qed.
+
+Lemma read_file_fuel_ok fuel : forall s,
+  (fuel > length (stream (s_data s)))%nat -> read_file fuel s <> None.
+Proof.
+  induction fuel as [|f IH]; intros s Hf; [lia|].
+  cbn [read_file].
+  destruct (conn_read 4096 (s_data (arrive s))) as [d c1] eqn:Er.
+  assert (H4096 : (4096 > 0)%nat) by lia.
+  destruct (conn_read_facts _ _ _ _ H4096 Er) as [Hs He]. rewrite arrive_data in Hs.
+  destruct d as [|x d]; [discriminate|].
+  apply IH. cbn [s_data]. rewrite Hs, app_length in Hf. cbn [length] in Hf. lia.
+Qed.
+
+Lemma existsb_single a b : existsb (N.eqb a) [b] = true -> a = b.
+Proof. cbn [existsb]. lia. Qed.
+
+(* Commander.read_stream *)
+Lemma read_stream_ok limit s s' r :
+  read_stream limit s = (s', Ok r) ->
+  exists chunks text rest,
+    s_tr s' = s_tr s ++ map EvData chunks ++ [EvDataEof; EvReply 226; EvDataClose]
+    /\ concat chunks = stream (s_data s)
+    /\ stream (s_data s') = []
+    /\ r = (226, text)
+    /\ reply_of_stream limit (stream (s_ctrl s)) = SOk 226 text rest
+    /\ stream (s_ctrl s') = rest.
+Proof.
+  unfold read_stream.
+  destruct (read_file (read_file_fuel s) s) as [s1|] eqn:Ef; [|discriminate].
+  destruct (read_file_all _ _ _ Ef) as (chunks & Ht & Hc & He & Hctl).
+  unfold bind, read_reply_m, expect_code, emit, ret, raise.
+  pose proof (read_reply_run_is_stream limit (s_ctrl (arrive s1))) as Hv.
+  destruct (read_reply_run limit (s_ctrl (arrive s1))) as [code text c'|e] eqn:Err; [|discriminate].
+  cbn [fst s_ctrl s_data s_tr s_net].
+  destruct (existsb (N.eqb code) [226]) eqn:Ex; [|discriminate].
+  apply existsb_single in Ex. subst code.
+  intros H. injection H as <- <-. cbn [s_tr s_data s_ctrl].
+  rewrite arrive_tr, arrive_data. rewrite arrive_ctrl, Hctl in Hv. cbn [rr_view] in Hv.
+  exists chunks, text, (stream c'). repeat split; try assumption; try (symmetry; assumption).
+  rewrite Ht, <- !app_assoc. reflexivity.
+Qed.
+
+Lemma read_stream_trace limit s s' r :
+  read_stream limit s = (s', r) ->
+  exists t, s_tr s' = s_tr s ++ t /\ Forall ok_event t.
+Proof.
+  unfold read_stream.
+  destruct (read_file (read_file_fuel s) s) as [s1|] eqn:Ef.
+  2:{ intros H. injection H as <- <-. exists []. rewrite app_nil_r. split; [reflexivity|constructor]. }
+  destruct (read_file_all _ _ _ Ef) as (chunks & Ht & _).
+  intros H.
+  destruct (pres_tail ok_event ok_r limit I _ _ _ H) as (_ & t & Ht2 & Ho).
+  exists ((map EvData chunks ++ [EvDataEof]) ++ t).
+  rewrite Ht2, Ht, <- !app_assoc. split; [reflexivity|].
+  rewrite !Forall_app. repeat split; try assumption.
+  - apply Forall_forall. intros ev Hin. apply in_map_iff in Hin. destruct Hin as (x & <- & _). exact I.
+  - repeat constructor.
+Qed.
+
+Lemma bind_ok {A B} (m : M A) (f : A -> M B) s s' b :
+  bind m f s = (s', Ok b) -> exists s1 a, m s = (s1, Ok a) /\ f a s1 = (s', Ok b).
+Proof.
+  unfold bind. destruct (m s) as [s1 [a|e]]; [|discriminate]. intros H. now exists s1, a.
+Qed.
+
+(* C17 (a): whatever the request holds and whatever the server sends, under any
+   segmentation and arrival schedule: every write of the visit is one command line. *)
+Theorem visit_one_line limit q fresh cached s s' r :
+  visit limit q fresh cached s = (s', r) ->
+  exists t, s_tr s' = s_tr s ++ t /\ Forall ok_event t.
+Proof.
+  unfold visit, bind. intros H.
+  pose proof (pres_control ok_event ok_w ok_r ok_o limit q fresh cached ok_s) as Hp.
+  destruct ((if q_listing q then start_listing limit q fresh cached else start limit q fresh cached) s)
+    as [s1 [a|e]] eqn:Es.
+  - destruct (Hp _ _ _ Es) as (_ & t1 & Ht1 & Ho1).
+    destruct (read_stream_trace _ _ _ _ H) as (t2 & Ht2 & Ho2).
+    exists (t1 ++ t2). rewrite Ht2, Ht1, app_assoc. split; [reflexivity|].
+    apply Forall_app; split; assumption.
+  - injection H as <- <-. destruct (Hp _ _ _ Es) as (_ & t1 & Ht1 & Ho1). now exists t1.
+Qed.
+
+(* a path / user name / password with CR, LF or NUL is refused before it is written *)
+Theorem bad_argument_not_written name arg :
+  existsb bad_char arg = true ->
+  forall s, write_command name arg s = (s, Err EProtocol).
+Proof. intros H s. unfold write_command. now rewrite to_bytes_rejects. Qed.
+
+(* C17 (c): the visit reports a complete transfer only if, after the control
+   phase, the data connection was read to EOF (all its bytes, in order, went to
+   the file), THEN a reply was read from the control connection and it was 226:
+   the reply that the control bytes left unread by the control phase parse to,
+   wherever those bytes were (wire or buffer) while the data was transferred. *)
+Theorem visit_complete_only_after_226 limit q fresh cached s s' r :
+  visit limit q fresh cached s = (s', Ok r) ->
+  exists t1 chunks text s1 rest,
+    s_tr s' = s_tr s ++ t1 ++ map EvData chunks ++ [EvDataEof; EvReply 226; EvDataClose]
+    /\ s_tr s1 = s_tr s ++ t1
+    /\ Forall ctl_event t1
+    /\ concat chunks = stream (s_data s)
+    /\ stream (s_data s') = []
+    /\ r = (226, text)
+    /\ reply_of_stream limit (stream (s_ctrl s1)) = SOk 226 text rest
+    /\ stream (s_ctrl s') = rest.
+Proof.
+  unfold visit. intros H. apply bind_ok in H. destruct H as (s1 & a & Hs & Hr).
+  destruct (pres_control ctl_ok ctl_ok_w ctl_ok_r ctl_ok_o limit q fresh cached ctl_ok_s _ _ _ Hs) as (Hd & t1 & Ht1 & Hc1).
+  destruct (read_stream_ok _ _ _ _ Hr) as (chunks & text & rest & Htr & Hcc & He & Hrr & Hrun & Hrest).
+  exists t1, chunks, text, s1, rest. rewrite Htr, Ht1, <- app_assoc, <- Hd.
+  repeat split; try assumption.
+  apply Forall_forall. intros ev Hin. rewrite Forall_forall in Hc1. exact (proj2 (Hc1 ev Hin)).
+Qed.
+
+(* a path with CR, LF or NUL: the visit never completes (SIZE, or MLSD for a
+   listing, is refused with ProtocolError, which no handler in Session swallows) *)
+Theorem visit_bad_path_fails limit q fresh cached s s' r :
+  existsb bad_char (q_path q) = true ->
+  visit limit q fresh cached s = (s', r) -> exists e, r = Err e.
+Proof.
+  intros Hb H. destruct r as [x|e]; [exfalso|now exists e].
+  unfold visit in H. apply bind_ok in H. destruct H as (s1 & a & Hs & _).
+  destruct (q_listing q).
+  - unfold start_listing in Hs.
+    apply bind_ok in Hs. destruct Hs as (s2 & a2 & _ & Hs).
+    apply bind_ok in Hs. destruct Hs as (s3 & a3 & _ & Hs).
+    unfold catch_server, begin_stream, bind in Hs.
+    rewrite (bad_argument_not_written MLSD _ Hb) in Hs. discriminate.
+  - unfold start in Hs.
+    apply bind_ok in Hs. destruct Hs as (s2 & a2 & _ & Hs).
+    apply bind_ok in Hs. destruct Hs as (s3 & a3 & Hs & _).
+    unfold fetch_size, catch_server, bind in Hs.
+    rewrite (bad_argument_not_written SIZE _ Hb) in Hs. discriminate.
+Qed.
+
+(* ================================================================== *)
+(* statements in the form Props/C17.v cites                            *)
+(* ================================================================== *)
+Lemma visit_one_line_closed limit q fresh cached ctrl data net s' r :
+  visit limit q fresh cached (mkSess ctrl data [] net) = (s', r) ->
+  Forall (fun ev => match ev with
+                    | EvWrite bs =>
+                        (exists name arg, In name command_names /\ Forall safe_byte arg
+                                          /\ bs = name ++ 32 :: arg ++ [13; 10])
+                        /\ (exists body, bs = body ++ [13; 10] /\ Forall safe_byte body)
+                    | _ => True
+                    end) (s_tr s').
+Proof.
+  intros H. destruct (visit_one_line _ _ _ _ _ _ _ H) as (t & Ht & Ho).
+  cbn [s_tr app] in Ht. rewrite Ht. eapply Forall_impl; [|exact Ho].
+  intros ev Hev. destruct ev; try exact I. cbn [ok_event] in Hev. split; [exact Hev|].
+  now apply one_line_wire.
+Qed.
+
+Lemma bad_argument_refused_closed :
+  (forall name arg s, existsb bad_char arg = true -> write_command name arg s = (s, Err EProtocol))
+  /\ (forall limit q fresh cached s s' r,
+        existsb bad_char (q_path q) = true ->
+        visit limit q fresh cached s = (s', r) -> exists e, r = Err e).
+Proof.
+  split.
+  - intros name arg s H. now apply bad_argument_not_written.
+  - intros. eapply visit_bad_path_fails; eassumption.
+Qed.
+
+Lemma reply_matches_reference_conn limit r rest c :
+  rfc_wf limit r ->
+  stream c = render r ++ rest ->
+  rr_view (read_reply_run limit c) = SOk (rfc_code r) (rfc_text r) rest.
+Proof.
+  intros Hw Hs. rewrite read_reply_run_is_stream, Hs. now apply reply_matches_reference.
+Qed.
